@@ -183,6 +183,9 @@ def r2(ctx, lib):
 def r34(ctx, lib):
     mc = ctx.need_body('C05.R3', 'dedupe::FsCommand::move_copy')
     if mc is not None:
+        from ..desugar import desugared
+        mc = desugared(lib, mc)      # `copy().and_then(|_| remove(source)).map_err(|e| remove_copy(target, e))` is the same chain of matches
+    if mc is not None:
         from ..analysis import result_tests, reachable_state
         calls = ordered_chain(ctx, 'C05.R3', mc, [('check_can_rename', r'FsCommand::check_can_rename$'), ('mkdirs', r'FsCommand::mkdirs$'),
                                                    ('unsafe_copy', r'FsCommand::unsafe_copy$|^std::fs::copy$')], mc.path, last_may_be_matched=True) if 'last_may_be_matched' in ordered_chain.__code__.co_varnames else None
@@ -234,7 +237,10 @@ def r34(ctx, lib):
             rm_ok = reachable_state(mc, 0, rt, 'ok') if rt else set()
             if src_rm:
                 from ..analysis import return_variants_state
-                cleans = [r for r in tgt_rm if r.bb in rm_err and r.bb not in rm_ok]
+                # (one clean-up site may serve both failures - `copy().and_then(remove).map_err(clean up)`: what counts is that it is
+                # reached when the removal failed and never when both the copy and the removal succeeded)
+                all_ok = reachable_state(mc, 0, dict(list(ct.items()) + list(rt.items())), 'ok') if (ct and rt) else set()
+                cleans = [r for r in tgt_rm if r.bb in rm_err and (r.bb not in rm_ok or r.bb not in all_ok)]
                 rvs = return_variants_state(mc, src_rm[0].bb, rt, 'err') if rt else set()
                 ctx.check(bool(cleans) and 'Ok' not in rvs, 'C05.R3', mc.path + '|failed-remove-cleans-target', src_rm[0].where(), 'when remove(source) fails the fresh copy is removed again and the error is returned',
                           'when remove(source) fails (directory not writable, append-only, sticky) the error is returned but the complete copy made a moment ago stays under the target directory: the command '
@@ -244,7 +250,8 @@ def r34(ctx, lib):
                 from ..analysis import return_variants_state
                 if r.bb in rm_err and r.bb not in rm_ok:
                     continue
-                only_err = r.bb in err_region and r.bb not in ok_region
+                both_ok = reachable_state(mc, 0, dict(list(ct.items()) + list(rt.items())), 'ok') if (ct and rt) else ok_region
+                only_err = r.bb in err_region and (r.bb not in ok_region or (r.bb in rm_err and r.bb not in both_ok))
                 rv = return_variants_state(mc, r.bb, ct, 'err') if ct else set()
                 ctx.check(only_err and 'Ok' not in rv, 'C05.R3', mc.path + '|target-cleanup', r.where(), 'the target is removed only after the copy failed, and the error is returned',
                           'the target of the move can be removed %s' % ('on the success path of the copy' if not only_err else 'and the failure is then reported as success'))
